@@ -25,7 +25,7 @@ out.append("| property | verdict / clause that caught it | strengthening needed 
 for d in sorted(glob.glob(f"{V}/seeded/C*")):
     m = json.load(open(d + "/meta.json"))
     out.append(f"| {m['property']} | {m['caught_by'][:300]} | {(m.get('strengthening') or 'no')[:400]} |")
-out.append("\n**Second to fifth round of independently seeded changes** (seeded/<ID>/r2A, r2B: two per property, different clauses; r3C: one more, least exercised corner; r4D: ten more for the weakest properties; r5E: four more, changes that need something specific to manifest)\n")
+out.append("\n**Second to fifth round of independently seeded changes** (seeded/<ID>/r2A, r2B: two per property, different clauses; r3C: one more, least exercised corner; r4D: ten more for the weakest properties; r5E: eight more, changes that need something specific to manifest)\n")
 out.append("| change | verdict / clause that caught it | note / strengthening needed first |\n|---|---|---|")
 for d in sorted(glob.glob(f"{V}/seeded/C*/r[2345]*")):
     m = json.load(open(d + "/meta.json"))
